@@ -119,7 +119,11 @@ class Runner:
             for line in open(os.path.join(self.outdir, fn), errors="replace"):
                 parts = line.rstrip("\n").split("\t")
                 if parts[0] == "FAIL" and len(parts) >= 3:
-                    self.oracle_fails.append((parts[1], parts[2]))
+                    pref = self.cfg.get("oracle_prefixes", [self.prop.lower() + ":"])
+                    if any(parts[1].startswith(p) for p in pref):
+                        self.oracle_fails.append((parts[1], parts[2]))
+                    else:
+                        self.stats["other_property_oracle_fails"] = self.stats.get("other_property_oracle_fails", 0) + 1
                 elif parts[0] == "STAT" and len(parts) >= 3:
                     try:
                         self.stats[parts[1]] = self.stats.get(parts[1], 0) + int(parts[2])
